@@ -493,7 +493,7 @@ pub fn scripted(k: usize) -> Option<(&'static str, Vec<Tab>, Vec<Stmt>)> {
                  Stmt::Update { t: 0, asg: vec![(1, Expr::Lit(Some(2)))], wh: Some(Pred::Cmp(0, Op::Eq, 1)) }, del_eq(0, 0, 3), del_eq(0, 0, 2)],
         ),
         14 => (
-            "i64-overflow-panic",
+            "i64-overflow",
             pc(Cascade, Cascade),
             vec![ins(0, &[&[9223372036854775807, 0], &[1, 0]]), ins(1, &[&[1, 9223372036854775807]]),
                  Stmt::Update { t: 0, asg: vec![(0, Expr::Add(0, 1))], wh: Some(Pred::Cmp(0, Op::Ge, 5)) },
@@ -557,6 +557,13 @@ pub fn scripted(k: usize) -> Option<(&'static str, Vec<Tab>, Vec<Stmt>)> {
             let sel = |dst: usize, src: usize, simple: bool| Stmt::InsertSelect { dst, src, simple, sel: vec![] };
             ("insert-select-self-ref", vec![t0, t1], vec![ins(1, &[&[1, -1], &[2, 1], &[3, 2]]), sel(0, 1, false), sel(0, 1, true),
                  del_eq(0, 0, 3), ins(1, &[&[4, 9]]), Stmt::Delete { t: 0, wh: Some(Pred::Cmp(0, Op::Ge, 2)) }, sel(0, 1, true)])
+        }
+        22 => {
+            let mut sc = pc(NoAction, SetNull);
+            sc[1].cols[1].default = None;
+            ("unchanged-key-update", sc, vec![ins(0, &[&[2, 0], &[3, 0]]), ins(1, &[&[7, 2], &[8, 3]]),
+                 Stmt::Update { t: 0, asg: vec![(0, Expr::Lit(Some(2)))], wh: Some(Pred::Cmp(0, Op::Eq, 2)) },
+                 Stmt::Update { t: 0, asg: vec![(0, Expr::Col(0)), (1, Expr::Lit(Some(5)))], wh: None }])
         }
         _ => return None,
     })
